@@ -366,7 +366,8 @@ func c03TreeCases(rng *core.Rng, corpus *c03Corpus) c03Input {
 			for i := 0; i < n; i++ {
 				for j := 0; j < n; j++ {
 					if i != j && rng.Chance(1, 4) {
-						imports[i] = append(imports[i], fmt.Sprintf("c%d", j))
+						// (now and then spelled relative to the importing directory: not resolved that way, but never a reason to spin)
+						imports[i] = append(imports[i], core.Pick(rng, []string{"", "", "", "./", "../", "./../"})+fmt.Sprintf("c%d", j))
 					}
 				}
 				if rng.Chance(1, 3) {
@@ -388,8 +389,9 @@ func c03TreeCases(rng *core.Rng, corpus *c03Corpus) c03Input {
 			in.Arg = "main"
 			break
 		}
+		rel := core.Pick(rng, []string{"", "", "./", "../"})
 		for i := 0; i < n; i++ {
-			in.Files[fmt.Sprintf("c%d/c.go", i)] = fmt.Sprintf("package c%d\nimport \"c%d\"\nvar X = 1\n", i, (i+1)%n)
+			in.Files[fmt.Sprintf("c%d/c.go", i)] = fmt.Sprintf("package c%d\nimport \"%sc%d\"\nvar X = 1\n", i, rel, (i+1)%n)
 		}
 		in.Files["main/main.go"] = "package main\nimport \"c0\"\nfunc main() { println(c0.X) }"
 		in.Arg = "main"
